@@ -33,11 +33,11 @@ type c09State struct {
 
 type c09Pending struct {
 	answerer int
-	node  int
-	peer  netip.Addr
-	index uint32
-	from  netip.AddrPort
-	wrong bool
+	node     int
+	peer     netip.Addr
+	index    uint32
+	from     netip.AddrPort
+	wrong    bool
 }
 
 func (c *c09State) recordPending(w *nsWorld) {
